@@ -807,6 +807,7 @@ public:
                     ops.push(op);
                     cleared = !cleared;
                     solve(g.chance(0.3) ? g.range(0, 40) : g.range(40, budget / 2));
+
                 }
                 else if (u < 0.8)
                 {
@@ -820,6 +821,16 @@ public:
                 // (a second setup() is not among the calls the statement quantifies over: projection-based planners
                 // terminate in Grid::setDimension and EIT* frees live queue entries when set up twice)
             }
+        }
+        // (drawn last) "the next solve() behaves like a first one", literally: the solve after clear() + new problem
+        // definition runs with every random draw taken from one harness stream (H1, all-draws mode), and so does the first
+        // solve of a never-used planner of the same configuration on the same query: status, evaluations and path must agree
+        if (o.prop == "C03")
+        {
+            for (size_t ri = 0; ri < ops.size(); ri++)
+                if (ops.at(ri).gets("op") == "newquery" && ops.at(ri).gets("how") != "clearquery-then-set" && ops.at(ri).gets("how") != "set-only" &&
+                    ri + 1 < ops.size() && ops.at(ri + 1).gets("op") == "solve" && !threadedPlanner && !brokenEverywhere && g.chance(0.6))
+                    ops.at(ri + 1)["ref_stream"] = (long)g.range(1, 2000000000);
         }
         plan["ops"] = ops;
         // (drawn last) the resolution is set after the space information's first setup()
@@ -1125,7 +1136,9 @@ namespace
         }
         else
             c.outcomes.insert("exact");
-        if (P == "C01" || P == "C19")
+        // (C03: "never reports a half-built path as a solution" - a path whose motions were not all validated when the
+        // termination condition fired is half-built; judged by the same dense clause at every enumerated k)
+        if (P == "C01" || P == "C19" || P == "C03")
         {
             for (size_t i = 0; i < v.size(); i++)
                 if (!c.w->si->satisfiesBounds(v[i]))
@@ -1475,6 +1488,7 @@ sim::CaseResult PlanSim::run(const sim::Options &o, const Json &plan)
         std::set<std::string> opKinds;
         bool freshQuery = true;  // no solve yet on the current query since it was (re)installed
         std::vector<const ob::State *> foreign;  // start/goal states of the previous query
+        std::vector<std::shared_ptr<world::Query>> retired;  // replaced problem definitions stay alive until the planner is gone
         for (size_t oi = 0; setupOk && oi < ops.size() && res.vclass.empty(); oi++)
         {
             const Json &op = ops[oi];
@@ -1553,9 +1567,27 @@ sim::CaseResult PlanSim::run(const sim::Options &o, const Json &plan)
                 c.w->validBudget = c.w->validCalls.load() + stepBudget;
                 world::ledger().cpuBudget = c.w->cpuBudget;
                 world::ledger().armed = true;
+                // reference comparison ("behaves like a first one"): this solve draws all its randomness from one harness stream
+                // (only when the problem definition holds no solution yet - the never-used planner's is empty too; a planner
+                // whose clear() also resets its setup flag is set up again first, as the never-used one is, so that both solves
+                // start from a set-up planner)
+                const bool refRun = P == "C03" && op.has("ref_stream") && !scheduled && freshQuery && before.empty();
+                if (refRun && !planner->isSetup())
+                    planner->setup();
+                long drawsA = 0;
+                struct DrawsGuard
+                {
+                    ~DrawsGuard()
+                    {
+                        rngfault::allDrawsOff();
+                    }
+                } drawsGuard;
+                if (refRun)
+                    rngfault::allDrawsOn((uint64_t)op.geti("ref_stream"));
                 try
                 {
                     st = planner->solve(ptcObj);
+                    drawsA = rngfault::allDrawsOff();
                     c.w->validBudget = -1;
                     world::ledger().armed = false;
                     if (scheduled)
@@ -1732,6 +1764,93 @@ sim::CaseResult PlanSim::run(const sim::Options &o, const Json &plan)
                 doneIso:;
                     if (freshQuery && ptc.fired)
                         res.probes["cancelled-first-solve-of-a-query"]++;
+                    if (refRun && res.vclass.empty())
+                    {
+                        // a never-used planner of the same configuration, the same query, the same k, the same random stream
+                        auto refQ = world::makeQuery(c.w, plan["queries"].at(cur));
+                        if (auto ob2 = makeObjective(c.w, plan["objective"]))
+                            refQ->pdef->setOptimizationObjective(ob2);
+                        ob::PlannerPtr ref = planners::makeGeometric(c.planner, c.w->si);
+                        for (auto &kv : plan["params"].members())
+                            ref->params().setParam(kv.first, kv.second.s());
+                        ref->setProblemDefinition(refQ->pdef);
+                        ob::PlannerStatus rs;
+                        Ptc rp;
+                        rp.k = ptc.k;
+                        rp.cpuBudget = c.w->cpuBudget;
+                        long drawsB = 0;
+                        bool refOk = true;
+                        try
+                        {
+                            ref->setup();
+                            planners::applyNearestNeighbors(c.planner, ref.get(), plan.gets("nn"));
+                            c.w->validBudget = c.w->validCalls.load() + stepBudget;
+                            world::ledger().armed = true;
+                            rngfault::allDrawsOn((uint64_t)op.geti("ref_stream"));
+                            rs = ref->solve(rp.make());
+                            drawsB = rngfault::allDrawsOff();
+                        }
+                        catch (StopSolve &)
+                        {
+                            refOk = false;
+                        }
+                        catch (world::BudgetExhausted &)
+                        {
+                            refOk = false;
+                        }
+                        catch (ompl::Exception &)
+                        {
+                            refOk = false;
+                        }
+                        rngfault::allDrawsOff();
+                        c.w->validBudget = -1;
+                        world::ledger().armed = false;
+                        if (!refOk)
+                        {
+                            // (the reference run was abandoned mid-solve: its planner cannot be torn down safely)
+                            res.inconclusive = true;
+                            res.probes["reference-first-solve-abandoned"]++;
+                            res.trace = c.h;
+                            sim::finishCaseNow(res);
+                        }
+                        res.probes["solve-after-clear-compared-with-a-first-solve"]++;
+                        auto refSols = refQ->pdef->getSolutions();
+                        std::string diff;
+                        if ((ob::PlannerStatus::StatusType)rs != stt)
+                            diff += " status '" + st.asString() + "' vs '" + rs.asString() + "'";
+                        if (rp.evals != ptc.evals)
+                            diff += fmt(" termination-condition evaluations %ld vs %ld", ptc.evals, rp.evals);
+                        if (drawsA != drawsB)
+                            diff += fmt(" random draws consumed %ld vs %ld", drawsA, drawsB);
+                        if (refSols.size() != added.size())
+                            diff += fmt(" solutions added %zu vs %zu", added.size(), refSols.size());
+                        else if (!added.empty())
+                        {
+                            auto *pa = dynamic_cast<og::PathGeometric *>(after[0].path_.get());
+                            auto *pb = dynamic_cast<og::PathGeometric *>(refSols[0].path_.get());
+                            if (pa && pb)
+                            {
+                                if (pa->getStateCount() != pb->getStateCount())
+                                    diff += fmt(" best path has %zu vs %zu states", pa->getStateCount(), pb->getStateCount());
+                                else
+                                    for (size_t si2 = 0; si2 < pa->getStateCount(); si2++)
+                                        if (!c.w->si->equalStates(pa->getState((unsigned)si2), pb->getState((unsigned)si2)))
+                                        {
+                                            diff += fmt(" best paths differ from state %zu on", si2);
+                                            break;
+                                        }
+                            }
+                            if (after[0].approximate_ != refSols[0].approximate_)
+                                diff += " approximate flag differs";
+                        }
+                        if (!diff.empty())
+                            res.violate(P + ".solve-after-clear-unlike-a-first-solve" + sfx(c),
+                                        when + ": after clear() and a new problem definition, solve() differs from the first solve() of a never-used planner given the "
+                                               "same query, the same k and the same random stream (cleared vs never used):" + diff);
+                        refSols.clear();
+                        ref.reset();
+                        refQ.reset();
+                    }
                 }
                 if (P == "C04" && res.vclass.empty())
                 {
@@ -1767,6 +1886,16 @@ sim::CaseResult PlanSim::run(const sim::Options &o, const Json &plan)
                 res.faults[k == "clear" ? "F10-clear" : "F10-new-problem-definition"]++;
                 std::string how = op.gets("how", "clear");
                 size_t next = k == "newquery" ? (size_t)op.geti("query") % qs.size() : cur;
+                if (k == "newquery" && P == "C03" && oi + 1 < ops.size() && ops[oi + 1].has("ref_stream"))
+                {
+                    // the solve that follows is compared with a never-used planner's on a never-used problem definition:
+                    // goal objects carry state of their own (GoalStates cycles through its states), so this planner gets a
+                    // never-used problem definition of the same query as well
+                    retired.push_back(qs[next]);
+                    qs[next] = world::makeQuery(c.w, plan["queries"].at(next));
+                    if (auto ob2 = makeObjective(c.w, plan["objective"]))
+                        qs[next]->pdef->setOptimizationObjective(ob2);
+                }
                 if (how == "set-then-clear")
                 {
                     planner->setProblemDefinition(qs[next]->pdef);
